@@ -64,6 +64,8 @@ func Load(dir string) (*World, error) {
 	return w, err
 }
 
+var noFlatten = os.Getenv("SIPVET_NOFLATTEN") != ""
+
 func load(dir string, inline bool) (*World, error) {
 	env := []string{}
 	for _, e := range os.Environ() {
@@ -119,6 +121,25 @@ func load(dir string, inline bool) (*World, error) {
 	w := &World{Dir: dir, Fset: root.Fset, Pkg: root, Prog: prog, Main: spkgs[0], Files: len(root.GoFiles), Excluded: excluded}
 	if w.Main == nil {
 		return nil, fmt.Errorf("load: no SSA for root package")
+	}
+	if inline && !noFlatten {
+		// results that were packed into a small struct which is not part of the pinned tree are unpacked again (the
+		// rules, the function inventory and the rename recognition then see the positional results they know)
+		baselineTypes := map[string]bool{}
+		for _, l := range strings.Split(baselineFieldsTxt, "\n") {
+			if parts := strings.SplitN(strings.TrimSpace(l), "\t", 2); len(parts) == 2 {
+				baselineTypes[parts[0]] = true
+			}
+		}
+		flat, ferr := ssa.FlattenStructResults(w.Main, ssautil.AllFunctions(prog), func(nt *types.Named) bool {
+			return nt.Obj().Pkg() == w.Main.Pkg && !baselineTypes[nt.Obj().Name()]
+		})
+		if ferr != nil {
+			return nil, fmt.Errorf("inline: %v", ferr)
+		}
+		for _, n := range flat {
+			w.Renamed = append(w.Renamed, n+": struct result unpacked into positional results")
+		}
 	}
 	w.renameAliases(ssautil.AllFunctions(prog))
 	w.Renamed = append(w.Renamed, fieldRenameAliases(w.Main.Pkg)...)
